@@ -11,6 +11,7 @@ import (
 	"strings"
 
 	"verif/engine"
+	"verif/harness/c18"
 	"verif/gen"
 
 	"github.com/sdcio/yang-parser/data/datanode"
@@ -24,7 +25,7 @@ func init() {
 		Prop:   "C19",
 		Run:    run,
 		Replay: replay,
-		Rule: "E1 over (tree x encoding) and over decoder inputs, E2 over the JSON reader's map order. A two-module schema with int8/int64/uint64/decimal64/boolean/empty/string/enumeration/identityref (own and foreign module, an identity name that exists in both modules, an identityref leaf augmented in from the other module)/union leaves, user- and system-ordered lists and leaf-lists, presence container, augmented nodes. Round trip: every data tree made of up to 2 (quick) / 3 (thorough) slots (leaf with each value of its alphabet incl. 64-bit extremes and strings needing escaping, leaf-lists, lists with 1-2 entries, containers) is encoded as RFC 7951, plain JSON and XML by the real writers and decoded by the real readers; the decoded tree must equal the original (sibling order free, list and leaf-list order kept when ordered-by user). For the JSON readers every map-iteration order (owned choice points, deviation bound 1) must give the same tree. " +
+		Rule: "E1 over (schema x tree x encoding) and over decoder inputs, E2 over the JSON reader's map order. (1) Every schema forest of the C18 generator (leaf / leaf-list / presence and non-presence containers / lists / choices and cases, <= 3 nodes quick, <= 4 thorough) x every data tree valid under it (reference validation of C18; <= 4 / <= 5 nodes) x 3 encodings: decode(encode(tree)) must equal the tree. (2) A two-module schema with int8/int64/uint64/decimal64/boolean/empty/string/enumeration/identityref (own and foreign module, an identity name that exists in both modules, an identityref leaf augmented in from the other module)/union leaves, user- and system-ordered lists and leaf-lists, presence container, augmented nodes. Round trip: every data tree made of up to 2 (quick) / 3 (thorough) slots (leaf with each value of its alphabet incl. 64-bit extremes and strings needing escaping, leaf-lists, lists with 1-2 entries, containers) is encoded as RFC 7951, plain JSON and XML by the real writers and decoded by the real readers; the decoded tree must equal the original (sibling order free, list and leaf-list order kept when ordered-by user). For the JSON readers every map-iteration order (owned choice points, deviation bound 1) must give the same tree. " +
 			"Totality: every byte prefix, every single-token deletion, duplication and replacement (token alphabet of the format) of every encoding, and every string of <= 4 tokens, is decoded under a step horizon: no panic; on success every leaf value in the returned tree must be accepted by its schema type and, where a reference parser (encoding/json with UseNumber, encoding/xml) finds the literal in the input, a literal the type rejects must not have been altered into an accepted value. Non-trivial = the tree has a list, leaf-list, 64-bit number, escaped string or foreign-module node, or the mutated input still decodes.",
 		Bound: map[string]string{"quick": "trees of <= 2 slots; mutations of the encodings of all 1-slot trees; token strings <= 3", "thorough": "trees of <= 3 slots; mutations of all 2-slot trees; token strings <= 4"},
 		Assumptions: []string{"map iteration inside encoding/json and the rfc7951 package is not owned; the reader's own range over the decoded map is"},
@@ -527,6 +528,7 @@ func run(c *engine.Ctx) {
 		c.Report(engine.Violation{Key: "schema-does-not-compile", Detail: msg})
 		return
 	}
+	runGenerated(c)
 	sl := slots()
 	var trees []*D
 	add := func(kids ...*D) {
@@ -735,7 +737,140 @@ func checkIdentityInput(ms schema.ModelSet, i int) []engine.Violation {
 	return nil
 }
 
+// ---------------------------------------------------------------- generated schemas
+
+type genRec struct {
+	Schema []*c18.S `json:"schema"`
+	Tree   *c18.D   `json:"tree"`
+	Enc    string   `json:"enc"`
+}
+
+// canonG renders a tree with siblings and values sorted (generated schemas are system-ordered).
+func canonG(n datanode.DataNode) string { return canonGn(n, true) }
+
+func canonGn(n datanode.DataNode, root bool) string {
+	name := n.YangDataName()
+	if root {
+		name = "" // the name of the root is not data
+	}
+	kids := n.YangDataChildrenNoSorting()
+	if len(kids) == 0 {
+		vals := append([]string{}, n.YangDataValuesNoSorting()...)
+		sort.Strings(vals)
+		return name + "=" + strings.Join(vals, "\x1f")
+	}
+	var parts []string
+	for _, k := range kids {
+		parts = append(parts, canonGn(k, false))
+	}
+	sort.Strings(parts)
+	return name + "{" + strings.Join(parts, " ") + "}"
+}
+
+var genModel struct {
+	key string
+	ms  schema.ModelSet
+}
+
+func checkGenerated(r genRec) (vs []engine.Violation) {
+	text := "module a { namespace \"urn:a\"; prefix a; " + c18.SchemaText(r.Schema) + " }"
+	if genModel.key != text {
+		res := gen.Compile(map[string]string{"a": text}, gen.Options{})
+		genModel.key, genModel.ms = text, nil
+		if res.OK() {
+			genModel.ms = res.MS
+		}
+	}
+	ms := genModel.ms
+	if ms == nil {
+		return nil
+	}
+	enc := encByName(r.Enc)
+	mk := func(key, detail string) {
+		vs = append(vs, engine.Violation{Key: key, Witness: fmt.Sprintf("%s schema {%s} tree %s", r.Enc, c18.SchemaText(r.Schema), r.Tree), Detail: detail, Harness: "generated", Replay: engine.JSON(r)})
+	}
+	orig := (&c18.D{Name: "data", Kids: r.Tree.Kids}).Node()
+	b, p := encode(ms, enc, orig)
+	if p != nil {
+		mk("encoder-panic:generated:"+r.Enc, fmt.Sprint(p))
+		return
+	}
+	d := decode(ms, enc, b, nil)
+	switch {
+	case d.horizon || d.panic != nil:
+		mk("decoder-panic:generated:"+r.Enc, fmt.Sprint(d.panic)+" on "+string(b))
+	case d.err != nil:
+		mk("own-encoding-rejected:generated:"+r.Enc+":"+shapeOf(r.Schema), fmt.Sprintf("%v on %s", d.err, b))
+	case canonG(orig) != canonG(d.tree):
+		mk("round-trip-differs:generated:"+r.Enc+":"+shapeOf(r.Schema), fmt.Sprintf("encoded %s\nexpected %s\ngot      %s", b, canonG(orig), canonG(d.tree)))
+	}
+	return
+}
+
+// shapeOf: node kinds of the schema (for finding keys).
+func shapeOf(kids []*c18.S) string {
+	var b strings.Builder
+	for i, k := range kids {
+		if k.Kind == "leaf" && k.Name == "k" {
+			continue
+		}
+		if i > 0 {
+			b.WriteString(",")
+		}
+		b.WriteString(k.Kind)
+		if k.Presence {
+			b.WriteString("!p")
+		}
+		if len(k.Kids) > 0 {
+			b.WriteString("{" + shapeOf(k.Kids) + "}")
+		}
+	}
+	return b.String()
+}
+
+func runGenerated(c *engine.Ctx) {
+	sb, db := 3, 4
+	if !c.Quick() {
+		sb, db = 4, 5
+	}
+	all := c18.GenSchemas(sb)
+	c.Note(fmt.Sprintf("%d generated schemas of <= %d nodes x valid data trees of <= %d nodes x 3 encodings", len(all), sb, db))
+	for gi, kids := range all {
+		if c.Expired() {
+			return
+		}
+		if !c.Owns(fmt.Sprintf("gen:%d", gi)) {
+			continue
+		}
+		for ti, t := range c18.DataTrees(kids, db) {
+			root := &c18.D{Name: "root", Kids: t}
+			if len(t) == 0 || !c18.ValidTree(kids, root) {
+				continue
+			}
+			for _, enc := range []string{"rfc7951", "json", "xml"} {
+				if !c.Case(fmt.Sprintf("g%d:%d:%s", gi, ti, enc)) {
+					continue
+				}
+				c.Add("states", 1)
+				c.Add("transitions", 1)
+				vs := checkGenerated(genRec{kids, root, enc})
+				c.Outcome(fmt.Sprintf("generated:%s:viol=%v", enc, len(vs) > 0))
+				for _, v := range vs {
+					c.Report(v)
+				}
+			}
+		}
+	}
+}
+
 func replay(c *engine.Ctx, sub string, raw json.RawMessage) []engine.Violation {
+	if sub == "generated" {
+		var r genRec
+		if json.Unmarshal(raw, &r) != nil || r.Tree == nil {
+			return []engine.Violation{{Key: "harness-bad-replay-file"}}
+		}
+		return checkGenerated(r)
+	}
 	if sub == "identity" {
 		var m map[string]int
 		ms, _ := getModel()
